@@ -24,25 +24,25 @@ Theorem C07_mediated_tree : forall a n,
   (first_refused a (fst (run_stock n)) = None -> run_ml a n = run_stock n).
 Proof. exact mediated_tree. Qed.
 
-(* The generated table: the four entry points are replaced, and every (loader callable,
-   container) pair observed from the installed torch performs all of its unpicklings through
-   replaced attributes -- EXCEPT the pairs for which the boolean [d11] holds
-   (torch.storage._load_from_bytes on a legacy / zip container: KNOWN_FINDINGS D11).  Any other
-   unmediated pair appearing in the regenerated table makes this theorem fail. *)
+(* The generated table (observed on every run from activate_safe_ml_environment and the installed
+   torch): the four entry points are replaced, and EVERY (loader callable, container) pair performs all
+   of its unpicklings through replaced attributes -- including the payload object of a legacy / zip
+   container, which torch unpickles with its own subclass of pickle.Unpickler (the environment replaces
+   that attribute too since the repair of D11).  Any unmediated pair appearing in the regenerated table
+   makes this theorem fail. *)
 Theorem C07_paths_mediated :
   forallb mediated entry_points = true /\
-  forall row, In row loader_paths ->
-    d11 (fst (fst row)) (snd (fst row)) = false -> pair_mediated row = true.
-Proof. exact (conj entry_points_mediated paths_mediated_except_d11). Qed.
+  forall row, In row loader_paths -> pair_mediated row = true.
+Proof. exact (conj entry_points_mediated paths_mediated_all). Qed.
 
-(* Together: a load through any of the four entry points whose nested calls follow the table and
-   do not use a D11 pair is fully mediated, at every depth. *)
-Theorem C07_safe_without_d11 : forall a n,
-  In (kind_of n) entry_points -> conforms n = true -> uses d11 n = false ->
+(* Together: a load through any of the four entry points whose nested calls follow the table is
+   fully mediated, at every depth, in every container format. *)
+Theorem C07_safe_conforming : forall a n,
+  In (kind_of n) entry_points -> conforms n = true ->
   run_ml a n = restrict a (run_stock n).
-Proof. exact safe_without_d11. Qed.
+Proof. exact safe_conforming. Qed.
 
-(* ---- non-vacuity: a conforming, D11-free tree three levels deep ---- *)
+(* ---- non-vacuity: a conforming tree three levels deep ---- *)
 Definition sink : gname := ("verif_sink", "record").
 Definition ploads : gname := ("pickle", "loads").
 Definition cloads : gname := ("_pickle", "loads").
@@ -66,7 +66,7 @@ Example C07_nonvacuous :
   run_ml [] deep_tree = ([np_dtype], Unsafe ploads).
 Proof. vm_compute. repeat split. left. reflexivity. Qed.
 
-(* ---- D11: the two unmediated paths of the pinned tree + installed torch ---- *)
+(* ---- D11 (repaired): the two paths that were unmediated on the pinned tree ---- *)
 Definition legacy_tree : node :=
   Node "pickle.loads"
     [ECall lfb Legacy true
@@ -77,21 +77,21 @@ Definition legacy_tree : node :=
 Definition zip_tree : node :=
   Node "pickle.loads" [ECall lfb Zip true [Node "pickle.Unpickler" [EGlob sink]]].
 
-(* torch.load reads the payload object of a legacy container with a subclass of
-   pickle.Unpickler: a global outside the allowlist is resolved (and would run) although the
-   environment is active and _load_from_bytes is allow-listed "because nested payloads are caught" *)
-Lemma C07_refuted_legacy :
+(* regression witnesses of D11 (repaired): torch.load reads the payload object of a legacy / zip
+   container with a subclass of pickle.Unpickler; the environment now replaces that attribute, so a
+   global outside the allowlist inside the payload aborts the load before it is resolved *)
+Lemma C07_d11_legacy_now_mediated :
   conforms legacy_tree = true /\ In (kind_of legacy_tree) entry_points /\
   in_base lfb = true /\ spec_permits [] sink = false /\
-  all_mediated legacy_tree = false /\
-  run_ml [] legacy_tree = ([lfb; sink], Done).
+  all_mediated legacy_tree = true /\
+  run_ml [] legacy_tree = ([lfb], Unsafe sink).
 Proof. vm_compute. repeat split. right. left. reflexivity. Qed.
 
-Lemma C07_refuted_zip :
+Lemma C07_d11_zip_now_mediated :
   conforms zip_tree = true /\ In (kind_of zip_tree) entry_points /\
   spec_permits [] sink = false /\
-  all_mediated zip_tree = false /\
-  run_ml [] zip_tree = ([lfb; sink], Done).
+  all_mediated zip_tree = true /\
+  run_ml [] zip_tree = ([lfb], Unsafe sink).
 Proof. vm_compute. repeat split. right. left. reflexivity. Qed.
 
 (* a bare payload handed to _load_from_bytes IS mediated (it is read as the container's first
@@ -103,4 +103,4 @@ Proof. vm_compute. reflexivity. Qed.
 
 Print Assumptions C07_mediated_tree.
 Print Assumptions C07_paths_mediated.
-Print Assumptions C07_safe_without_d11.
+Print Assumptions C07_safe_conforming.
